@@ -350,12 +350,24 @@ func H_C05_window() {
 		fx.s.listen(models.ListenerArgs{Event: models.DcpSeqNoAdvanced{DcpSeqNoAdvanced: &gocbcore.DcpSeqNoAdvanced{VbID: 0, SeqNo: o.SeqNo}, Offset: o}})
 		cover("unsaved-progress")
 	}
+	// an event of vBucket 1 the consumer is still working on when the rebalance begins
+	lateAck := nondetBool("late-ack-in-window")
+	if lateAck {
+		o := vOffset("held")
+		cur, _ := fx.s.offsets.Load(1)
+		assume(o.SeqNo > cur.SeqNo)
+		fx.s.listen(models.ListenerArgs{Event: models.DcpMutation{DcpMutation: vMutation(1, o.SeqNo, []byte("k")), Offset: o}})
+	}
 	if choose("range", 2) == 1 {
 		c.member = 2
 	}
 	c.lastNote = nowNs()
 	fx.s.Rebalance() // the stream is closed, the reopen is pending
 	time.Sleep(vDelay / 2)
+	if lateAck {
+		fx.fc.consumed[len(fx.fc.consumed)-1].Ack() // acknowledged only now, inside the window
+		cover("late-ack-in-window")
+	}
 	saves := len(fx.fm.calls)
 	fx.s.Save() // Commit() / the schedule's last tick inside the window
 	cover("save-in-window")
